@@ -13,6 +13,22 @@ def implies(a, b):
     return (not a) or bool(b)
 
 
+def p3a(path, d):
+    return path[3 * d]
+
+
+def p3b(path, d):
+    return path[3 * d + 1]
+
+
+def p3c(path, d):
+    return path[3 * d + 2]
+
+
+def len3(path):
+    return len(path) // 3
+
+
 def prefix_of(a, b):
     return b[: len(a)] == a
 
